@@ -29,10 +29,19 @@ GrammarRows == { [m |-> "lowpan", ipv |-> 6, ph |-> ph, ck |-> ck, st |-> "iphc-
                    ph \in Phases, ck \in Cks, t \in {"pairs", "fragn-first", "junk-head"} }
           \cup { [m |-> m, ipv |-> 4, ph |-> ph, ck |-> ck, st |-> "frag4-grammar", mu |-> t] :
                    m \in {"eth", "ip"}, ph \in Phases, ck \in Cks, t \in {"udp", "icmp"} }
+\* option areas: option kind x announced length x room actually there, for every option-carrying header
+OptionRows == { [m |-> m, ipv |-> v, ph |-> ph, ck |-> ck, st |-> "opt-grammar", mu |-> t] :
+                  m \in {"eth", "ip"}, v \in {4, 6}, ph \in Phases, ck \in Cks, t \in {"tcp"} }
+         \cup { [m |-> m, ipv |-> 4, ph |-> ph, ck |-> ck, st |-> "opt-grammar", mu |-> "ipv4"] :
+                  m \in {"eth", "ip"}, ph \in Phases, ck \in Cks }
+         \cup { [m |-> "eth", ipv |-> 4, ph |-> ph, ck |-> ck, st |-> "opt-grammar", mu |-> "dhcp"] :
+                  ph \in Phases, ck \in Cks }
+         \cup { [m |-> m, ipv |-> 6, ph |-> ph, ck |-> ck, st |-> "opt-grammar", mu |-> t] :
+                  m \in {"eth", "ip"}, ph \in Phases, ck \in Cks, t \in {"ndisc", "hbh"} }
 \* the obligation as a machine: `alive` is never lost, whatever the row
 VARIABLES row, done, alive
 Init == row = [m |-> "none"] /\ done = FALSE /\ alive = TRUE
-Pick == ~done /\ done' = TRUE /\ alive' = alive /\ \E r \in AllRows \cup GrammarRows : row' = r
+Pick == ~done /\ done' = TRUE /\ alive' = alive /\ \E r \in AllRows \cup GrammarRows \cup OptionRows : row' = r
 Spec == Init /\ [][Pick]_<<row, done, alive>>
 Alive == alive
 Export == done => PrintT(<<"REPLAY", ToJson(row)>>)
